@@ -14,7 +14,10 @@ Correspondence run here:
       external pthreads and ULTs on several streams under the controlled scheduler (harness/sc_ranks.c): every
       trace is projected (vlib/t3_ranks.py: spinlock operations on xstream_list_lock + the real list walked at every
       release) onto Lean Model.RankConc (`driver rankconc`), which has the scan and the update as separate steps
-      under the lock; native monitors (distinct ranks, refused only if held, get_num = live count, ABTI_ASSERTs);
+      under the lock and lets a free reach the lock only after its join completed (stream stored TERMINATED and its
+      native thread parked); some streams are kept busy by a yielding ULT while their owner frees them and others
+      create / set_rank / get_num; native monitors (distinct ranks, refused only if held, get_num = live count and
+      >= streams still executing, no rank granted that a still-executing stream holds, ABTI_ASSERTs);
   T3x abtd_stream.c (the tree's own text, compiled with virtual pthread primitives) driven through
       random interleavings incl. spurious wake-ups, event by event against Lean Model.XsCtx;
   T1l token skeletons of the life-cycle functions of stream.c / thread.c / abtd_stream.c / sched.c that Model.XsLife
@@ -42,7 +45,10 @@ ASSUMPTIONS = [
     "Props.C17.Conc.conc_refines_atomic + conc_step_simulates prove that every completed call is exactly one atomic "
     "Model.Rank call performed during its own lock hold (so the Part 1 theorems hold for all interleavings), T1 "
     "skeletons tie the rank/list functions of stream.c, T3 validates controlled schedules of harness/sc_ranks.c "
-    "against the model incl. the real list at every lock release.  What is still assumed for concurrent callers: "
+    "against the model incl. the real list at every lock release; a free reaches the list lock only after its join part "
+    "completed (model step `joined`, projected from the stream's TERMINATED store and its native thread parking), so a "
+    "stream that is running or being joined is in the list, holds its rank and is counted "
+    "(conc_running_streams_distinct_and_counted).  What is still assumed for concurrent callers: "
     "sequentially consistent execution of the spinlock's atomic primitives; plain statements between two hook "
     "points execute atomically under the controlled scheduler (the scan and the update of one critical section are "
     "placed directly after its test_and_set in the projected trace)",
@@ -342,8 +348,8 @@ def run_impl(exe, lines, timeout=180):
     return D.run_lines([exe], lines, timeout=timeout, env=env)
 
 
-def rank_disagreement(exe, lines):
-    rc_c, out_c, err_c = run_impl(exe, lines)
+def rank_disagreement(exe, lines, timeout=180):
+    rc_c, out_c, err_c = run_impl(exe, lines, timeout=timeout)
     rc_m, out_m, err_m = model_lines("rank", lines)
     if rc_m != 0:
         return {"kind": "model-driver-failed", "rc": rc_m, "stderr": err_m[-2000:]}
@@ -365,9 +371,10 @@ def classify_t2(res, what, exe, lines, d, ret_code_hist):
                       {"correspondence": what, "ops": small, "disagreement": rank_disagreement(exe, small) or d,
                        "impl_output": out_c[-40:], "oracle": why})
         return
-    small = D.ddmin(lines, lambda ls: rank_disagreement(exe, ls) is not None, budget=120)
-    d2 = rank_disagreement(exe, small) or d
-    rc, out_c, err = run_impl(exe, small)
+    # a hanging implementation (e.g. a cycle in the stream list) costs one timeout per probe: keep the probes short
+    small = D.ddmin(lines, lambda ls: rank_disagreement(exe, ls, timeout=8) is not None, budget=80)
+    d2 = rank_disagreement(exe, small, timeout=30) or d
+    rc, out_c, err = run_impl(exe, small, timeout=30)
     if rc == 0:
         why = rank_oracle(small, out_c)
     elif rc == -999:
@@ -721,8 +728,10 @@ RANKS_SC = ("sc_ranks", ["sc_ranks.c"])
 
 
 def ranks_params(rng):
-    """<nbase> <nactors> <rounds> <ext%> <nranks>: few ranks in the contended window so that creators collide"""
-    return [rng.below(3), 2 + rng.below(5), 2 + rng.below(4), rng.choice([0, 30, 50, 100]), 1 + rng.below(4)]
+    """<nbase> <nactors> <rounds> <ext%> <nranks> <busy%>: few ranks in the contended window so that creators collide;
+    busy% of the created streams execute a yielding ULT while their owner frees them"""
+    return [rng.below(3), 2 + rng.below(5), 2 + rng.below(4), rng.choice([0, 30, 50, 100]), 1 + rng.below(4),
+            rng.choice([0, 40, 70, 100])]
 
 
 def t1_ranks(res, broken):
@@ -740,8 +749,13 @@ def t3_conc(res, tier, broken):
 
     t0 = time.time()
     vs.campaign(res, broken, tier, "C17", RANKS_SC[0], RANKS_SC[1], ranks_params, validate,
-                sizes={"quick": (16, 4), "thorough": (200, 8), "search": (150, 6)})
+                sizes={"quick": (16, 4), "thorough": (200, 8), "search": (150, 6)},
+                reject_is_failure=t3_ranks.reject_is_failure)
     res.add_cov(rankconc_wall_s=round(time.time() - t0, 1),
+                rankconc_busy_streams=stats["harness_busy"], rankconc_frees_of_a_stream_still_executing=stats["harness_free_while_busy"],
+                rankconc_create_or_claim_while_a_stream_is_busy=stats["harness_claims_while_busy"],
+                rankconc_frees_of_running_stream=stats["free_of_running_stream"],
+                rankconc_joins_completed_inside_free=stats["joins_completed_inside_free"],
                 rankconc_calls_projected=stats["calls"], rankconc_call_histogram={k[5:]: v for k, v in stats.items() if k.startswith("call_")},
                 rankconc_critical_sections=stats["critical_sections"], rankconc_lock_contended_tas=stats["tas_failed"],
                 rankconc_creators_overlapping_another_creator=stats["creators_overlapping_another_creator"],
@@ -836,12 +850,24 @@ def run(res, tier, broken):
         tr_ranks = _campaign_cov(res, "campaign_ranks")
         res.cov["model_transitions"] = sorted(tr_life | tr_ranks)
         res.cov["model_transitions_exercised"] = len(tr_life | tr_ranks)
+        def found():
+            # a concrete failing input exists already: the remaining long native runs on real pthreads (each probe
+            # of a hanging implementation costs a full timeout) cannot change the verdict and are skipped
+            return any(not ni for (_, ni, _) in res.violations)
+
         t2_ranks(res, tier, broken, exe)
-        t2_cycles(res, tier, broken, exe)
-        wb_stale_prev(res, tier, broken)
-        t3_race(res, tier, broken, exe)
-        t3_xsctx(res, tier, broken)
-        rp_single(res, tier, broken, exe)
+        skipped = []
+        for name, phase in (("t2_cycles", lambda: t2_cycles(res, tier, broken, exe)),
+                            ("wb_stale_prev", lambda: wb_stale_prev(res, tier, broken)),
+                            ("t3_race", lambda: t3_race(res, tier, broken, exe)),
+                            ("t3_xsctx", lambda: t3_xsctx(res, tier, broken)),
+                            ("rp_single", lambda: rp_single(res, tier, broken, exe))):
+            if found() and name in ("t2_cycles", "t3_race", "rp_single"):
+                skipped.append(name)
+                continue
+            phase()
+        if skipped:
+            res.add_cov(skipped_after_a_failing_input_was_found=skipped)
         f7_overlap(res, tier, broken)
     finally:
         drop_driver()
